@@ -89,8 +89,9 @@ def rand_index(rng, n, p_invalid):
     return rng.choice([MAX, MAX - 1, n + 2, n + 7])
 
 
-def vec_random(shapes, count, nops, seed, p_invalid=0.15, max_len=12):
-    """random operation histories over three registers, lengths tracked to stay small"""
+def vec_random(shapes, count, nops, seed, p_invalid=0.15, max_len=12, start=None):
+    """random operation histories over three registers, lengths tracked to stay small;
+    start=(lo, hi): the registers start with lo..hi elements (long vectors: word-size and chunk boundaries)"""
     rng = random.Random(seed)
     out = []
     for k in range(count):
@@ -99,6 +100,10 @@ def vec_random(shapes, count, nops, seed, p_invalid=0.15, max_len=12):
         lens = [0, 0, 0]
         nxt = rng.randrange(32)
         lines = []
+        if start:
+            for r0 in range(2):
+                m0 = rng.choice([start[0], start[1], 64, 65, rng.randint(*start)])
+                lines.append(f"collect r{r0} {tl(tags(m0, rng.randrange(32)))}"); lens[r0] = m0
         def fresh():
             nonlocal nxt
             nxt = (nxt + 1) % 32
